@@ -48,6 +48,29 @@ Proof.
   repeat split; vm_compute; reflexivity.
 Qed.
 
+(** F-C01c: a positional parameter that declares a default cannot be given by
+    position: [see_positional_arg] only fills positionals whose value is None,
+    and [Argument.value] falls back to the default.
+    [@task(positional=['name']) def t(c, name='x')], "inv t val". *)
+Definition ctx_posdef : ctxspec :=
+  mkCtx (Some "t") [] [mkArg ["name"; "n"] KStr (AStr "x") true false false None].
+
+Lemma refuted_positional_default :
+  exists cs inv,
+    admissible cs inv = true /\ model_roundtrip cs inv = false /\
+    spell cs inv = ["t"; "val"] /\
+    expected cs inv = [(Some "t", [("name", AStr "val")])] /\
+    model_parse cs ICore false (spell cs inv) = Err EParse /\
+    (* ... while the flag spelling works *)
+    (exists r, model_parse cs ICore false ["t"; "--name"; "val"] = Ok r /\
+               nth_error (o_ctxs r) 1 = Some (Some "t", [("name", AStr "val")])).
+Proof.
+  exists [ctx_posdef], [mkCall 0 "t" [One (mkOcc 0 0 FPos (VS "val"))]].
+  split; [vm_compute; reflexivity|]. split; [vm_compute; reflexivity|].
+  split; [vm_compute; reflexivity|]. split; [vm_compute; reflexivity|].
+  split; [vm_compute; reflexivity|]. eexists. split; vm_compute; reflexivity.
+Qed.
+
 (** ** Bounded sweep (a test) *)
 
 Fixpoint insert_everywhere {A} (x : A) (l : list A) : list (list A) :=
